@@ -375,6 +375,32 @@ def list_ops_empty_case(prog, have):
             te = fn.terms
             key = "%s:empty-list" % fn.npath
             found, errs = 0, []
+            # a shared folding helper handed the seed and the operation: `fold_lst(false_ptr(), list, |a, b| self.or(a, b))`
+            r0 = strip(te.ret)
+            if mir.is_call(r0) and (r0[1].local or getattr(r0[1], "res_local", False)):
+                from . import canon as _canon
+                seeds = [const_kind(a) for a in r0[2] if const_kind(a) in ("true", "false")]
+                ops = []
+                for a in r0[2]:
+                    g_, _ = _canon.closure_fn(prog, a)
+                    if g_ is not None:
+                        ops += [c.callee.name for c in g_.terms.calls if c.callee.name in ("or", "and")]
+                    a0 = strip(a)
+                    if isinstance(a0, tuple) and a0 and a0[0] == "fnref" and a0[1].name in ("or", "and"):
+                        ops.append(a0[1].name)
+                if len(seeds) == 1 and len(set(ops)) == 1:
+                    op = ops[0]
+                    need = "false" if op == "or" else "true"
+                    e_ = []
+                    if op != name.split("_")[0]:
+                        e_.append("%s folds its list with `%s`" % (name, op))
+                    if seeds[0] != need:
+                        e_.append("%s folds with `%s` from %s: the fold of an empty list, and the seed of every other, must be %s"
+                                  % (name, op, "⊤" if seeds[0] == "true" else "⊥", "⊤" if need == "true" else "⊥"))
+                    from .base import verdict_of, errtext
+                    out.append(inst("FS", key, verdict_of(e_), fn, None, errtext(e_) if e_ else
+                                    "%s = fold of `%s` from its identity through a shared helper" % (name, op)))
+                    continue
             for leaf, facts in alts(te, te.ret):
                 nothing = False
                 for c, v in facts:
